@@ -1049,11 +1049,16 @@ impl<T: ArrayValue> Array<T> {
                     .copied()
                     .chain(into.shape.iter().copied())
                     .collect();
-                let mut new_rows = EcoVec::with_capacity(new_shape.elements());
+                let elem_count = validate_size::<T>(new_shape.iter().copied(), env)?;
+                let mut new_rows = EcoVec::with_capacity(elem_count);
+                // The into array is copied to every cell of the leading axes that were added
+                let cell_count: usize = from.shape[..target_dim].iter().product();
+                let cell_len = true_count * into_row_len;
                 // Rows without elements have nothing to copy
-                let from_rows = (into_row_len > 0).then(|| from.row_slices());
-                for row in from_rows.into_iter().flatten() {
-                    let mut from_subrows = row.chunks_exact(into_row_len);
+                let cells = (into_row_len > 0)
+                    .then(|| (0..cell_count).map(|i| &from.data[i * cell_len..][..cell_len]));
+                for cell in cells.into_iter().flatten() {
+                    let mut from_subrows = cell.chunks_exact(into_row_len);
                     for (&count, into_slice) in counts.iter().zip(into.row_slices()) {
                         if count < 1.0 {
                             new_rows.extend_from_slice(into_slice);
